@@ -140,4 +140,20 @@ CHECKS["C09"] = dict(
     note=("Trusted: as C01/C04. 'p = n => L_p L_p^T = K + j I' is covered by execution only; spectral-norm statements are replaced by Loewner/trace forms."),
     technique="Coq MathComp proof over translator-generated definitions + PrimFloat execution",
     design="4/C09")
+CHECKS["C07"] = dict(
+    text=("Theorems (Coq): the whole predictor state (every state variable, n_obs, n_input_features, _state_variables, kernel expression) "
+          "of each of the nine classes survives to_dict/to_json -> from_dict/from_json (built on C19's value and kernel round-trip theorems, "
+          "unbounded nesting); re-serialising a restored value gives the content that was read; for every filename text, str or Path, and "
+          "compress in {None,gzip,bz2} the file written by to_json is read back by from_json with the codec it was written with, by keyword "
+          "and by extension alone (theorems over py_to_json/py_from_json regenerated from base_predictor.py every run). Execution: 11+ fitted "
+          "predictors covering the 9 classes with uncertainty: serialised and restored state compared exactly with the model in Coq; ~300 "
+          "round trips (dict, JSON string, copy, files x codecs x filename forms, pre-1.4.0 dictionaries, extreme/NaN state values) checked "
+          "for bit-identical outputs of all evaluation and derivative methods, preserved metadata, equal re-serialisation, no aliasing."),
+    note=("Trusted: Coq kernel; hand-written state model lib/Serial.v (tie = exact correspondence); pylogic_io translator for the codec logic "
+          "(json/gzip/bz2/open opaque); packaging.version verdict is an oracle. The pre-1.4.0 upgrade is an executable model compared with the "
+          "implementation, not a general theorem; copy() freshness and bit-identity of evaluation are runtime facts checked by execution "
+          "(partial). Observation (excluded by hypothesis `contradictory`): a Path named *.gz written with compress='bz2' is read as gzip "
+          "even when compress='bz2' is passed."),
+    technique="Coq proof over hand-written state model + translator-generated codec functions + exact vm_compute correspondence + execution",
+    design="4/C07")
 NOT_YET = {}
